@@ -156,6 +156,15 @@ structure CondS where
 def condKeys : List Str :=
   [c!"include_if_any", c!"include_if_all", c!"exclude_if_any", c!"exclude_if_all"]
 
+/-- the keys serde accepts for the smaller records (`deny_unknown_fields`). -/
+def gpKeys : List Str := [c!"section", c!"offset", c!"provide", c!"hidden"] ++ condKeys
+def classKeys : List Str := [c!"name", c!"fixed_vram", c!"fixed_symbol", c!"follows_classes", c!"keep_sections"]
+def assignKeys : List Str := [c!"name", c!"value", c!"provide", c!"hidden"] ++ condKeys
+def requiredKeys : List Str := [c!"name"] ++ condKeys
+def assertKeys : List Str := [c!"check", c!"error_message"] ++ condKeys
+def documentKeys : List Str :=
+  [c!"settings", c!"vram_classes", c!"segments", c!"entry", c!"symbol_assignments", c!"required_symbols", c!"asserts"]
+
 def dCondS (m : List (Str × Y)) : D CondS :=
   match anOf dPairs m c!"include_if_any", anOf dPairs m c!"include_if_all",
         anOf dPairs m c!"exclude_if_any", anOf dPairs m c!"exclude_if_all" with
@@ -219,7 +228,7 @@ structure GpInfoS where
 
 def dGpInfoS : Y → D GpInfoS
   | .map m =>
-    match checkKeys ([c!"section", c!"offset", c!"provide", c!"hidden"] ++ condKeys) m with
+    match checkKeys gpKeys m with
     | .error e => .error e
     | .ok () =>
       match anOf dStr m c!"section", anOf dI32 m c!"offset", anOf dBool m c!"provide",
@@ -303,7 +312,7 @@ structure VramClassS where
 
 def dVramClassS : Y → D VramClassS
   | .map m =>
-    match checkKeys [c!"name", c!"fixed_vram", c!"fixed_symbol", c!"follows_classes", c!"keep_sections"] m with
+    match checkKeys classKeys m with
     | .error e => .error e
     | .ok () =>
       match reqOf dStrNN m c!"name", anOf dU32 m c!"fixed_vram", anOf dStr m c!"fixed_symbol",
@@ -321,7 +330,7 @@ structure SymbolAssignmentS where
 
 def dSymbolAssignmentS : Y → D SymbolAssignmentS
   | .map m =>
-    match checkKeys ([c!"name", c!"value", c!"provide", c!"hidden"] ++ condKeys) m with
+    match checkKeys assignKeys m with
     | .error e => .error e
     | .ok () =>
       match reqOf dStrNN m c!"name", reqOf dStrNN m c!"value", anOf dBool m c!"provide",
@@ -336,7 +345,7 @@ structure RequiredSymbolS where
 
 def dRequiredSymbolS : Y → D RequiredSymbolS
   | .map m =>
-    match checkKeys ([c!"name"] ++ condKeys) m with
+    match checkKeys requiredKeys m with
     | .error e => .error e
     | .ok () =>
       match reqOf dStrNN m c!"name", dCondS m with
@@ -351,7 +360,7 @@ structure AssertS where
 
 def dAssertS : Y → D AssertS
   | .map m =>
-    match checkKeys ([c!"check", c!"error_message"] ++ condKeys) m with
+    match checkKeys assertKeys m with
     | .error e => .error e
     | .ok () =>
       match reqOf dStrNN m c!"check", reqOf dStrNN m c!"error_message", dCondS m with
@@ -417,8 +426,7 @@ def dSeqOf {α} (f : Y → D α) : Y → D (List α)
 
 def dDocumentS : Y → D DocumentS
   | .map m =>
-    match checkKeys [c!"settings", c!"vram_classes", c!"segments", c!"entry",
-                     c!"symbol_assignments", c!"required_symbols", c!"asserts"] m with
+    match checkKeys documentKeys m with
     | .error e => .error e
     | .ok () =>
       match anOf dSettingsS m c!"settings", anOf (dSeqOf dVramClassS) m c!"vram_classes",
